@@ -19,7 +19,8 @@ TEXT = ("Decides the two clauses of reopen-equality that are visible in the shap
         "appended; writer and reader derive the block's storage key from the same function. K5: in commit no call that can "
         "stage objects (write effect on DataStorage.stage, e.g. the automatic array resolution) is reachable from the "
         "pack write. Does not decide state "
-        "equality after reopen for all contents (a round trip over runtime values).")
+        "equality after reopen for all contents (a round trip over runtime values)."
+        " K2g also flags comparisons between values of a record on the way to a rejection. K2h: no rejection is conditioned on the absence of a key Delta::to_json writes conditionally. K2i: the loader accumulates parsed records by push or under a key that carries the whole revision. K6: serde_json float_roundtrip. K7: parse sites accept the nesting depth the writers emit (open known finding).")
 TECHNIQUE = 'static analysis over rustc MIR: finite abstract interpretation of the pack scanner vs a reference JSON object-boundary machine, writer/reader table extraction for blocks and packs, effect-ordered reachability in commit'
 TRUSTED = ["rustc nightly MIR", "serde_json::to_string emits RFC 8259 JSON (braces, quotes and backslashes unescaped only as structure / inside strings as written)"]
 
